@@ -30,7 +30,7 @@ func init() {
 		},
 		N: func(t string) int {
 			if t == "thorough" {
-				return 640
+				return 2560
 			}
 			return 64
 		},
